@@ -77,5 +77,4 @@ func probeMain(fs *flag.FlagSet, args []string) error {
 	return nil
 }
 
-func chainMain(fs *flag.FlagSet, args []string) error { return fmt.Errorf("todo") }
 func crossMain(fs *flag.FlagSet, args []string) error { return fmt.Errorf("todo") }
